@@ -77,6 +77,7 @@ class Module:
         if more:
             self.canon += more
             self.renames += alpha.normalise(relpath, self.tree)
+            self.idioms += canon.normalise_idioms(self.tree)
         if self.canon:
             self.tree = _renumber(self.tree)
         # shape drift of every function against the reference (statement skeletons, leaves erased)
